@@ -11,7 +11,15 @@ def case_from_inputs(i):
     """k_get_hours case from a solver model of a kernel obligation."""
     if i.get("lat") is None or i.get("dec") is None:
         return None
-    astros = [[i["dra"][k] or 0.0, i["dec"][k] or 0.0, i["ra"][k] or 0.0, i["rsum"][k] or 1.0, i["sid"][k] or 0.0] for k in range(3)]
+    def tri(name, default):
+        v = i.get(name)
+        if isinstance(v, (list, tuple)) and len(v) == 3:
+            return [default if x is None else float(x) for x in v]
+        if isinstance(v, (int, float)):
+            return [float(v) - 0.9856 * (1 - k) if name == "sid" else float(v) for k in range(3)]
+        return [default] * 3
+    dra, dec, ra, rsum, sid = tri("dra", 0.0), tri("dec", 0.0), tri("ra", 0.0), tri("rsum", 1.0), tri("sid", 0.0)
+    astros = [[dra[k], dec[k], ra[k], rsum[k], sid[k]] for k in range(3)]
     p = {"method": "None", "ext": "None", "round": "None", "angles": {"Fajr": float(i.get("aF") or 15.0), "Isha": float(i.get("aI") or 15.0)}}
     if i.get("school"):
         p["asr"] = i["school"]
@@ -41,6 +49,38 @@ def random_cases(n, latmax, seed):
     return cases
 
 
+def corner_cases(latmax):
+    """The edges of the property's quantifier domain: extreme / tropical / equatorial latitudes on solstice, equinox and year-end
+    dates, both schools, extreme and typical twilight angles (the places where a formula valid 'almost everywhere' breaks)."""
+    lats = []
+    for a in (latmax, latmax - 0.05, latmax - 0.5, latmax - 2.0, 48.6, 23.44, 23.0, 10.0, 0.0):
+        if a <= latmax:
+            lats += [a, -a] if a else [0.0]
+    dates = ["2023-06-21", "2023-12-22", "2023-03-20", "2023-09-23", "1600-06-21", "2399-12-21", "2024-02-29", "2023-01-01",
+             "2023-06-14", "2023-06-28", "2023-12-15", "2023-12-29", "2023-05-01", "2023-08-10", "2023-11-01", "2023-02-10"]
+    eph, metas = [], []
+    for lat in lats:
+        for i, d in enumerate(dates):
+            lon = (37.0 * i + lat) % 360 - 180
+            gmt = max(-12.0, min(12.0, round(lon / 15.0)))
+            for school, aF, aI in (("Shafi", 18.0, 17.0), ("Hanafi", 18.0, 17.0), ("Hanafi", 9.0, 21.0), ("Shafi", 21.0, 9.0)):
+                eph.append({"api": "k_ephemeris", "date": d, "gmt": gmt, "lat": lat, "lon": lon, "elev": 0.0})
+                metas.append((lat, lon, aF, aI, school))
+    uniq = {}
+    for e in eph:
+        uniq.setdefault(json.dumps(e, sort_keys=True), e)
+    keys = list(uniq)
+    tri = dict(zip(keys, kreplay.run([uniq[k] for k in keys])))
+    cases = []
+    for (lat, lon, aF, aI, school), e in zip(metas, eph):
+        t = tri[json.dumps(e, sort_keys=True)]
+        if "astros" not in t:
+            continue
+        cases.append({"api": "k_get_hours", "lat": lat, "lon": lon, "elev": 0.0, "astros": t["astros"], "from": e,
+                      "params": {"method": "None", "ext": "None", "round": "None", "asr": school, "angles": {"Fajr": aF, "Isha": aI}}})
+    return cases
+
+
 def confirm(rep, results, want, latmax, key_prefix=""):
     """Replay candidates (and seeded random admissible inputs) against the real kernels; report what reproduces."""
     cands = [c for x in results for c in x["cands"]]
@@ -53,12 +93,15 @@ def confirm(rep, results, want, latmax, key_prefix=""):
             cases.append(k)
     seed = int(os.environ.get("VERIF_SEED", "0") or 0)
     cases += random_cases(400, latmax, seed)
+    cases += corner_cases(latmax)
     outs = kreplay.run(cases)
     found = {}
     for c, o in zip(cases, outs):
         if "panic" in o or "crash" in o:
             found.setdefault("kernel-panic", []).append(("get_hours panics: %s" % o.get("panic"), c, o))
             continue
+        for i in o.get("nonfinite", []):
+            found.setdefault(key_prefix + "nonfinite-hour", []).append(("%s is reported as Ok(non-finite hour) - a fabricated time" % oracle.ORDER[i], c, o))
         for key, desc in oracle.judge_hours(c, o["hours"], want):
             found.setdefault(key_prefix + key, []).append((desc, c, o))
     for key, items in found.items():
@@ -71,8 +114,13 @@ def confirm(rep, results, want, latmax, key_prefix=""):
 
 
 def judge_replay_kernel(case, results, want):
+    from . import ephsweep
     for c, r in zip(case.get("cases", [case]), results):
+        if str(case.get("key", "")).startswith("eph-") and ephsweep.judge_case(c, r, want):
+            return True
         if "panic" in r:
+            return True
+        if r.get("nonfinite"):
             return True
         if "hours" in r and oracle.judge_hours(c, r["hours"], want):
             return True
